@@ -19,7 +19,10 @@ Inputs == ndJsonDeserialize(IOEnv.MCIN)
 VARIABLES stack, cur, made, reps, hist, out, phase, stopped, newAfterStop, idc, fnf, usedfn
 mvars == <<stack, cur, made, reps, hist, out, phase, stopped, newAfterStop, idc, fnf, usedfn>>
 
-MkCur(i) == [idx |-> i, ty |-> Inputs[i].ty, val |-> Inputs[i].val, pk |-> Inputs[i].pk, canonical |-> Canonical, stopped |-> FALSE]
+\* the declarative fault list of an input is computed once, when the input is chosen (it only depends on the run through the
+\* failures of user functions, fnf)
+MkCur(i) == [idx |-> i, ty |-> Inputs[i].ty, val |-> Inputs[i].val, pk |-> Inputs[i].pk, canonical |-> Canonical, stopped |-> FALSE,
+             faults0 |-> Faults(Inputs[i].ty, Inputs[i].val, <<>>, Inputs[i].pk, {})]
 
 NoOut == [z |-> "none", val |-> UnitRV, ids |-> <<>>]
 \* the environment the machine sees now: the last answer of the error type was "stop" and nothing told it to continue since
@@ -49,7 +52,7 @@ ValueOfFrame(F) ==
             IN RV("map", FALSE, 0, DZero, "", "", SetAsSeq({[k |-> k, v |-> ResOf(F, Ob("entry", last(k)))] : k \in keys}))
       [] N.c \in {"struct", "enum"} ->
             LET fs == FieldsOfNode(N, F.vi)
-                fv(fi) == LET ms == {j \in 1..Len(F.val.e) : HasRes(F, Ob("entry", j)) /\ Route(N, F.vi, F.val.e[j].k) = fi}
+                fv(fi) == LET ms == {j \in 1..Len(F.val.e) : HasRes(F, Ob("entry", j)) /\ RouteK(N, F.vi, F.fkeys, F.val.e[j].k) = fi}
                           IN IF fi \in F.mapped THEN F.mres[CHOOSE j \in 1..Len(F.mres) : F.mres[j].fi = fi].v
                              ELSE IF ms = {} THEN fs[fi].dval ELSE ResOf(F, Ob("entry", Max(ms)))
             IN RV(IF N.c = "struct" THEN "struct" ELSE "variant", FALSE, 0, DZero, "",
@@ -136,7 +139,7 @@ Inv_C01 == Done => /\ (out.z = "ok" => made = {})
 Inv_C01_local == \A c \in Candidates(stack, CurNow) : (c.e = "exit" /\ c.ok) => Top(stack).since = {}
 
 \* C02: a keep-going error type receives exactly the independent faults of the payload, whatever the order
-FaultsOfInput == Faults(cur.ty, cur.val, <<>>, cur.pk, fnf)
+FaultsOfInput == IF fnf = {} THEN cur.faults0 ELSE Faults(cur.ty, cur.val, <<>>, cur.pk, fnf)
 Inv_C02 == (Done /\ AllC) => SameBag(reps, FaultsOfInput)
 \* ... and a frame never returns while obligations are pending unless a stop was answered
 Inv_C02_local == \A c \in Candidates(stack, CurNow) : c.e = "exit" => (Top(stack).pend = {} \/ Top(stack).brk \/ stopped \/ Top(stack).ph \in {"fin", "leafok"})
@@ -184,7 +187,7 @@ ValueOf(n, val, pk) ==
             RV("map", FALSE, 0, DZero, "", "", SetAsSeq({[k |-> ParseKey(pk, N.name, val.e[j].k).v, v |-> ValueOf(N.kids[1], val.e[j].v, pk)] : j \in 1..Len(val.e)}))
       [] N.c \in {"struct", "enum"} ->
             LET fs == FieldsOfNode(N, cl.vi)
-                ms(fi) == {j \in 1..Len(val.e) : Ob("entry", j) \in cl.pend /\ Route(N, cl.vi, val.e[j].k) = fi}
+                ms(fi) == {j \in 1..Len(val.e) : Ob("entry", j) \in cl.pend /\ RouteK(N, cl.vi, F.fkeys, val.e[j].k) = fi}
                 fv(fi) == IF ms(fi) = {} THEN fs[fi].dval ELSE ValueOf(fs[fi].node, val.e[Max(ms(fi))].v, pk)
             IN RV(IF N.c = "struct" THEN "struct" ELSE "variant", FALSE, 0, DZero, "",
                   IF N.c = "struct" THEN N.name ELSE N.variants[cl.vi].ident,
